@@ -244,6 +244,16 @@ impl<F: Read + Seek> Seek for Stream<F> {
 
 impl<F: Read + Write + Seek> Write for Stream<F> {
     fn write(&mut self, buf: &[u8]) -> io::Result<usize> {
+        // A damaged file can record a stream length close to u64::MAX; the
+        // position after the write must still be representable.
+        if self.current_position().checked_add(buf.len() as u64).is_none() {
+            invalid_input!(
+                "Cannot write {} bytes at offset {} of stream {}",
+                buf.len(),
+                self.current_position(),
+                self.stream_id
+            );
+        }
         let num_bytes_written = match self.buffer.write_bytes(buf) {
             Some(count) => count,
             None => {
